@@ -1,7 +1,7 @@
 (* Property C01 -- fixed-point quantizers emit only representable codes of the
    declared format.  Statements only; proofs are in Quant/FixedThm.v. *)
 From Coq Require Import ZArith List Bool.
-From QV Require Import Base.ZQ Base.FL Quant.Fixed Quant.FixedThm.
+From QV Require Import Base.ZQ Base.FL Quant.Fixed Quant.FixedThm Quant.FLExact.
 Open Scope Z_scope.
 
 (* quantized_bits: for every configuration and every rational input the integer
@@ -111,3 +111,19 @@ Example C01_nonvacuous :
   let c := QB 4 1 true false in
   0 < qb_ub c /\ qb_code c 3 10 = 1 /\ qb_code c (-17) 10 = -7 /\ qb_code c 5 1 = 7 /\ qb_code c (-5) 1 = -8.
 Proof. vm_compute. repeat split; discriminate. Qed.
+
+(* ---- the bridge to float32 (Quant/FLExact.v): the rounding function of the float model is the identity on every value
+   code * 2^e with |code| < 2^24 in the normal range, so a representable code times its step IS a float32 value and the exact
+   rational model can be compared with TensorFlow bit for bit ---- *)
+Theorem C01_code_times_step_is_a_float32_value : forall code step_exp, code <> 0 -> Z.abs code < 2 ^ 24 ->
+  -126 <= Z.log2 (Z.abs code) + step_exp ->
+  req (fl (rscale (rofZ code) step_exp)) (rscale (rofZ code) step_exp) = true.
+Proof. exact fixed_point_code_is_a_float32_value. Qed.
+Print Assumptions C01_code_times_step_is_a_float32_value.
+Theorem C01_qbits_output_is_a_float32_value : forall c a b, 1 <= qb_ub c <= 23 -> -126 <= qb_se c ->
+  let v := rscale (rofZ (qb_code c a b)) (qb_se c) in req (fl v) v = true.
+Proof. exact qbits_output_is_a_float32_value. Qed.
+Print Assumptions C01_qbits_output_is_a_float32_value.
+(* beyond 24 significant bits the identity fails: 2^24 + 1 is not a float32 value *)
+Theorem C01_float32_bridge_needs_24_bits : req (fl (16777217, 1)) (16777217, 1) = false.
+Proof. reflexivity. Qed.
